@@ -174,8 +174,10 @@ def compare_dirs(ref, other, same_path_set, exact_orderp=True):
 
 # ----------------------------------------------------------------------------- scenarios
 def fam_cfg(fam, steps=None, workers=1):
-    return {"nintf": fam["nintf"], "workers": workers, "steps": fam["N"] if steps is None else steps, "seed": fam["seed"],
-            "moves": fam["moves"], "delete_old": fam["delete_old"], "allowmaxlength": True, "cap": fam.get("cap")}
+    c = {"nintf": fam["nintf"], "workers": workers, "steps": fam["N"] if steps is None else steps, "seed": fam["seed"],
+         "moves": fam["moves"], "delete_old": fam["delete_old"], "allowmaxlength": True, "cap": fam.get("cap")}
+    c.update(fam.get("opts") or {})      # cv2, scale, on_intf, lm1, quantis, screen, delete_old_all
+    return c
 
 
 def steps_chain_ops(d, fam, chain, fresh=False):
@@ -208,17 +210,19 @@ def multi_ops(d, fam, W, policy, kills):
 
 def fam_tag(fam):
     cap = "" if fam.get("cap") is None else f"-cap{fam['cap']}"
-    return f"{fam['engine']}-{fam['mtag']}-s{fam['seed']}-N{fam['N']}{cap}"
+    opts = "".join(f"-{k}={v}" for k, v in sorted((fam.get("opts") or {}).items()))
+    return f"{fam['engine']}-{fam['mtag']}-s{fam['seed']}-N{fam['N']}{cap}{opts}"
 
 
 # ----------------------------------------------------------------------------- predicates, one worker
 def check_w1(ctx, fam, ref, d, kind, chain, res):
     """the property for one restarted run `d` against the uninterrupted reference `ref`"""
     rep = {"engine": fam["engine"], "moves": fam["moves"], "mtag": fam["mtag"], "seed": fam["seed"], "N": fam["N"],
-           "nintf": fam["nintf"], "delete_old": fam["delete_old"], "cap": fam.get("cap"), "workers": 1, "kind": kind,
-           "chain": list(chain)}
+           "nintf": fam["nintf"], "delete_old": fam["delete_old"], "cap": fam.get("cap"), "opts": fam.get("opts"), "workers": 1,
+           "kind": kind, "chain": list(chain)}
     ctx.count(1, engine=fam["engine"], kind=kind, seed=("0" if fam["seed"] == 0 else "nonzero"), moves=fam["mtag"])
-    ctx.distinct((fam["engine"], fam["mtag"], fam["seed"], fam["N"], kind, tuple(chain), fam.get("cap")))
+    ctx.distinct((fam["engine"], fam["mtag"], fam["seed"], fam["N"], kind, tuple(chain), fam.get("cap"),
+                  tuple(sorted((fam.get("opts") or {}).items()))))
     if fam.get("cap") is not None:
         ctx.hit("interface_cap=set")
     if not res.get("ok"):
@@ -226,7 +230,7 @@ def check_w1(ctx, fam, ref, d, kind, chain, res):
         return False
     sig = None
     what = ""
-    if kind != "twice":
+    if kind not in ("twice", "one-process-first-run", "one-process-second-run"):
         a, b = effective_submits(read_log(ref)), effective_submits(read_log(d))
         ka, kb = [job_key(s) for s in a], [job_key(s) for s in b]
         if ka != kb:
@@ -247,11 +251,13 @@ def check_w1(ctx, fam, ref, d, kind, chain, res):
             else:
                 sig, what = "C06:restart:job-streams-differ", f"job {i}: {y} vs {x}"
             rep["first_differing_job"] = i
-    diff = compare_dirs(ref, d, same_path_set=not fam["delete_old"], exact_orderp=(fam["engine"] == "lattice" or kind == "twice"))
+    diff = compare_dirs(ref, d, same_path_set=not fam["delete_old"], exact_orderp=(fam["engine"] == "lattice" or kind in ("twice", "one-process-first-run", "one-process-second-run")))
     if diff is not None:
         rep["first_difference"] = diff
         if sig is None:
-            sig = "C06:determinism:two-runs-differ" if kind == "twice" else "C06:restart:files-differ"
+            sig = ("C06:determinism:two-runs-differ" if kind == "twice" else
+                   "C06:determinism:run-depends-on-process-state" if kind.startswith("one-process") else
+                   "C06:restart:files-differ")
         what = (what + "; " if what else "") + f"{diff['file']} line {diff['line']}: {diff['other']!r} vs {diff['ref']!r}"
     if sig is not None:
         ctx.fail(sig, f"{fam_tag(fam)} {kind} {list(chain)}: {what}", rep)
@@ -262,8 +268,8 @@ def check_w1(ctx, fam, ref, d, kind, chain, res):
 # ----------------------------------------------------------------------------- predicates, several workers
 def check_multi(ctx, fam, W, policy, kills, d, d2, res, res2):
     rep = {"engine": fam["engine"], "moves": fam["moves"], "mtag": fam["mtag"], "seed": fam["seed"], "N": fam["N"],
-           "nintf": fam["nintf"], "delete_old": fam["delete_old"], "cap": fam.get("cap"), "workers": W, "policy": policy,
-           "kind": "multi",
+           "nintf": fam["nintf"], "delete_old": fam["delete_old"], "cap": fam.get("cap"), "opts": fam.get("opts"), "workers": W,
+           "policy": policy, "kind": "multi",
            "chain": list(kills)}
     tag = f"{fam_tag(fam)} W={W} {policy} kills={list(kills)}"
     ctx.count(1, engine=fam["engine"], kind="multi", workers=W, restarts=len(kills))
@@ -390,12 +396,32 @@ def plan(ctx):
     for seed in ([1, 2] if q else [0, 1, 2, 3, extra_seed]):
         fams.append({"engine": "lattice", "mtag": "wfcap", "moves": ["sh", "sh", "wf", "wf", "sh"], "seed": seed,
                      "N": 14 if q else 20, "nintf": 5, "delete_old": (seed % 2 == 0), "cap": 0.8125})
+    # configuration classes the test suite never uses (one worker, every split, chains, crash points):
+    #   an order parameter with an extra collective-variable column; integer order values; interfaces exactly ON lattice
+    #   values; lambda_minus_one (0.0 = falsy, and negative); quantis with its own [0-] engine; screen 3; delete_old
+    #   without delete_old_all
+    Lw = {"engine": "lattice", "mtag": "wf", "moves": ["sh", "sh", "wf", "wf"], "nintf": 4, "delete_old": False}
+    hard = [("cv2", {"cv2": True}, [2, 3] if q else [2, 3, 12, extra_seed], {}),
+            ("int", {"scale": 1.0}, [1] if q else [0, 1], {}),
+            ("onintf", {"on_intf": True}, [1] if q else [0, 1, 2], {}),
+            ("lm1zero", {"lm1": 0.0}, [1] if q else [0, 1], {}),
+            ("lm1neg", {"lm1": -0.375}, [2] if q else [0, 2], {}),
+            ("quantis", {"quantis": True}, [1] if q else [0, 1], {"moves": ["sh"] * 4}),
+            ("screen3", {"screen": 3}, [1] if q else [0, 1], {}),
+            ("delnoall", {"delete_old_all": False}, [1] if q else [0, 1], {"delete_old": True})]
+    for tag, opts, seeds, over in hard:
+        for seed in seeds:
+            fams.append(dict(Lw, mtag=tag, seed=seed, N=10 if q else 16, opts=opts, **over))
     tur = [(0, "wf", TURTLE_MIX), (1, "wf", TURTLE_MIX), (2, "sh", TURTLE_SH)] if q else \
           [(s, t, m) for s in (0, 1, 2, 3) for t, m in (("wf", TURTLE_MIX), ("sh", TURTLE_SH))]
     for seed, mtag, moves in tur:
         fams.append({"engine": "turtle", "mtag": mtag, "moves": moves, "seed": seed, "N": 10 if q else 14, "nintf": 8,
                      "delete_old": (mtag == "wf")})
-    for seed, cap in ([(1, -0.1)] if q else [(0, -0.1), (1, -0.1), (0, 0.1), (1, 0.1)]):
+    if fams:
+        for f in fams:
+            if f["engine"] == "turtle" and f["mtag"] == "sh":
+                f["opts"] = {"screen": 1}       # the repo's own screen value
+    for seed, cap in ([(1, -0.1)] if q else [(0, -0.1), (1, -0.1), (0, 0.1), (1, 0.1), (1, 0.0)]):
         fams.append({"engine": "turtle", "mtag": "wfcap", "moves": TURTLE_MIX, "seed": seed, "N": 12, "nintf": 8,
                      "delete_old": True, "cap": cap})
     multi = []
@@ -431,6 +457,19 @@ def plan(ctx):
         fifo.append((dict(tu, seed=1, N=10), 3, list(range(1, 10))))
     else:
         fifo.append((dict(tu, seed=1, N=8), 3, [3, 6, 7]))
+    # completion orders that are functions of the set of jobs in flight (newest first, oldest first, seeded choice):
+    # jobs finish out of issue order and the straight and the restarted run still follow the same order, so the byte
+    # comparison applies; every split point, chains of two stops
+    hseed = rng.randrange(10 ** 9)
+    for seed in ([1, 5] if q else [0, 1, 2, 3, 5, extra_seed]):
+        for W, base_f, N in ((2, lat, 10), (3, lat, 10)) + (() if q else ((4, lat5, 12),)):
+            for policy in ("ord-max", f"ord-hash:{hseed}") + (() if q else ("ord-min",)):
+                ks = list(range(1, N)) + [(2, 5), (4, N - 1)]
+                fifo.append((dict(base_f, seed=seed, N=N), W, ks, policy))
+    for seed in ([5] if q else [1, 5]):
+        fifo.append((dict(tu, seed=seed, N=8 if q else 10), 3, [2, 4, 6, 7] if q else list(range(1, 10)), "ord-max"))
+        if not q:
+            fifo.append((dict(tu, seed=seed, N=10), 2, list(range(1, 10)), f"ord-hash:{hseed}"))
     return fams, multi, fifo
 
 
@@ -472,7 +511,8 @@ def crash_points(ctx, fam, kinds):
 
 
 # ----------------------------------------------------------------------------- the run
-def run_w1_families(ctx, pool, base, fams, all_splits=True, chains=None, every=True, fresh_one=True, crashes=None):
+def run_w1_families(ctx, pool, base, fams, all_splits=True, chains=None, every=True, fresh_one=True, crashes=None,
+                    one_process=()):
     """phase 1 (independent runs) + phase 2 (runs that start from the snapshots of the reference)"""
     p1, p2, checks = [], [], []
     for fi, fam in enumerate(fams):
@@ -508,6 +548,24 @@ def run_w1_families(ctx, pool, base, fams, all_splits=True, chains=None, every=T
             ch = tuple(range(1, N))
             p1.append({"name": f"{fi}:EV", "ops": steps_chain_ops(d, fam, ch)})
             checks.append((fam, ref, d, "restart-after-every-step", ch, len(p1) - 1, 1))
+        if one_process and fi in one_process and N >= 4:
+            # module-level state (tis.ENGINES, enginebase.counter, logging handlers): two runs in ONE process, and a
+            # stop + restart in ONE process (what the repo's own test does), must give the files of fresh processes
+            d1, d2 = os.path.join(fb, "P1"), os.path.join(fb, "P2")
+            p1.append({"name": f"{fi}:P", "ops": [
+                {"op": "prepare", "dir": d1, "engine": fam["engine"], "cfg": fam_cfg(fam)},
+                {"op": "prepare", "dir": d2, "engine": fam["engine"], "cfg": fam_cfg(fam)},
+                {"op": "legs1p", "legs": [{"op": "leg", "dir": d1, "input": "infretis.toml", "leg": 0},
+                                          {"op": "leg", "dir": d2, "input": "infretis.toml", "leg": 0}]}]})
+            checks.append((fam, ref, d1, "one-process-first-run", (), len(p1) - 1, 1))
+            checks.append((fam, ref, d2, "one-process-second-run", (), len(p1) - 1, 1))
+            k = N // 2
+            d3 = os.path.join(fb, "P3")
+            p1.append({"name": f"{fi}:P3", "ops": [
+                {"op": "prepare", "dir": d3, "engine": fam["engine"], "cfg": fam_cfg(fam, steps=k)},
+                {"op": "legs1p", "legs": [{"op": "leg", "dir": d3, "input": "infretis.toml", "leg": 0},
+                                          {"op": "leg", "dir": d3, "input": "restart.toml", "set_steps": N, "leg": 1}]}]})
+            checks.append((fam, ref, d3, "one-process-steps-split", (k,), len(p1) - 1, 1))
         if fresh_one and fi == 0 and ks:
             k = ks[len(ks) // 2]
             d = os.path.join(fb, "FR")
@@ -551,40 +609,48 @@ def run_w1_families(ctx, pool, base, fams, all_splits=True, chains=None, every=T
 
 
 def run_multi_fifo(ctx, pool, base, groups):
+    groups = [(g[0], g[1], g[2], (g[3] if len(g) > 3 else 'fifo')) for g in groups]
     """several workers, completion order fifo: the restart re-issues the recorded jobs with their own streams and
     re-picks the lost one from the restored stream position, so the restarted run is byte-identical to the straight one.
     groups = [(fam, W, [k, ...])]; every k incl. the last ones (fewer steps left than workers)."""
     scs, checks = [], []
-    for gi, (fam, W, ks) in enumerate(groups):
+    for gi, (fam, W, ks, policy) in enumerate(groups):
         ref = os.path.join(base, f"g{gi}ref")
-        scs.append({"name": f"g{gi}ref", "ops": multi_ops(ref, fam, W, "fifo", ())})
+        scs.append({"name": f"g{gi}ref", "ops": multi_ops(ref, fam, W, policy, ())})
         ref_i = len(scs) - 1
         for k in ks:
-            d = os.path.join(base, f"g{gi}k{k}")
-            scs.append({"name": f"g{gi}k{k}", "ops": multi_ops(d, fam, W, "fifo", (k,))})
-            checks.append((fam, W, k, ref, ref_i, d, len(scs) - 1))
+            kk = tuple(k) if isinstance(k, (list, tuple)) else (k,)
+            d = os.path.join(base, f"g{gi}k{'_'.join(map(str, kk))}")
+            scs.append({"name": os.path.basename(d), "ops": multi_ops(d, fam, W, policy, kk)})
+            checks.append((fam, W, kk, policy, ref, ref_i, d, len(scs) - 1))
     res = pool.map(scs)
-    for fam, W, k, ref, ref_i, d, di in checks:
+    for fam, W, kk, policy, ref, ref_i, d, di in checks:
+        k = kk[-1]
         rep = {"engine": fam["engine"], "moves": fam["moves"], "mtag": fam["mtag"], "seed": fam["seed"], "N": fam["N"],
-               "nintf": fam["nintf"], "delete_old": fam["delete_old"], "cap": fam.get("cap"), "workers": W, "policy": "fifo",
-               "kind": "multi-fifo-split", "chain": [k]}
-        tag = f"{fam_tag(fam)} W={W} fifo split after step {k}"
-        ctx.count(1, engine=fam["engine"], kind="multi-fifo-split", workers=W,
+               "nintf": fam["nintf"], "delete_old": fam["delete_old"], "cap": fam.get("cap"), "opts": fam.get("opts"),
+               "workers": W, "policy": policy, "kind": "multi-fifo-split", "chain": list(kk)}
+        tag = f"{fam_tag(fam)} W={W} {policy} split after step {list(kk)}"
+        ctx.count(1, engine=fam["engine"], kind="multi-straight-vs-restarted", workers=W, order=policy.split(":")[0],
                   steps_left=("<workers" if fam["N"] - k < W else ">=workers"))
-        ctx.distinct((fam["engine"], fam["mtag"], fam["seed"], fam["N"], W, "fifo-split", k))
+        ctx.distinct((fam["engine"], fam["mtag"], fam["seed"], fam["N"], W, policy, kk))
         for r in (res[ref_i], res[di]):
             if not r.get("ok"):
                 ctx.fail("C06:run-raised", f"{tag}: {r.get('error')}", dict(rep, trace=r.get("trace")))
                 break
         else:
             leg_predicates(ctx, fam, W, read_log(d), tag, rep)
-            a, b = effective_submits(read_log(ref)), effective_submits(read_log(d))
+            # the jobs of the two runs, by the ordinal of their random stream (with out-of-order completion a re-issued
+            # job appears later in the restarted run's log than in the straight run's)
+            a = sorted(effective_submits(read_log(ref)), key=lambda x: (x["streams"][0][1], x["ens"], x["pn"]))
+            b = sorted(effective_submits(read_log(d)), key=lambda x: (x["streams"][0][1], x["ens"], x["pn"]))
             ka, kb = [job_key(x) for x in a], [job_key(x) for x in b]
             diff = compare_dirs(ref, d, same_path_set=not fam["delete_old"])
             if ka != kb:
                 i = next((i for i, (x, y) in enumerate(zip(ka, kb)) if x != y), min(len(ka), len(kb)))
                 extra = [(x["ens"], x["pn"]) for x in b[len(a):]]
+                ords_b = [x["streams"][0][1] for x in b]
                 sig = ("C06:restart:jobs-issued-that-the-straight-run-never-issued" if len(kb) > len(ka) and ka == kb[:len(ka)]
+                       else "C06:restart:stream-ordinal-reused" if len(set(ords_b)) < len(ords_b)
                        else "C06:restart:different-job-picked")
                 ctx.fail(sig, f"{tag}: {len(a)} jobs in one go, {len(b)} with the restart (first difference at job {i}"
                               f"{', extra jobs ' + str(extra) if extra else ''})"
@@ -688,7 +754,8 @@ def run(ctx):
         fams.sort(key=lambda f: 0 if f["engine"] == "turtle" else 1)
         good, total = run_w1_families(ctx, pool, os.path.join(base, "w1"), fams, all_splits=True,
                                       chains=lambda fam: chains_for(ctx, fam["N"]),
-                                      every=True, crashes=lambda fam, kinds: crash_points(ctx, fam, kinds))
+                                      every=True, crashes=lambda fam, kinds: crash_points(ctx, fam, kinds),
+                                      one_process=(0, len(fams) - 1))
         ctx.extra["one_worker_runs_identical"] = f"{good}/{total}"
         ctx.extra["turtle_maxop_last_digit_lines_forgiven"] = ROUNDED["lines"]
         run_multi(ctx, pool, os.path.join(base, "multi"), multi)
@@ -714,6 +781,14 @@ def run(ctx):
     ctx.assumptions += [
         "interface_cap: families 'wfcap' (lattice cap 13/16 with moves sh,sh,wf,wf,sh; TurtleMD wf.toml with cap -0.1 / 0.1); "
         "all other families run without a cap",
+        "a restart with another number of workers than at the stop is not promised by the property (same configuration "
+        "apart from `steps`) and is not exercised",
+        "several workers: byte comparison straight vs restarted needs a completion order that both runs follow: fifo and "
+        "orders that are functions of the set of jobs in flight (ord-max = newest first, ord-min, seeded ord-hash); lifo / "
+        "rand act on one process's list of futures and are used for the re-issue predicates and run-twice determinism only",
+        "object state: every run uses long-lived real objects (REPEX_state, engines, PathStorage, order parameter) over all "
+        "its steps and is compared with runs whose objects were rebuilt in fresh processes at every split; additionally two "
+        "runs and a stop + restart inside ONE process are compared with fresh-process runs (tie only; the model is functional)",
         "scope: allowmaxlength = true in every run (the 'initial path' marker lost at a restart — code TODO — would change "
         "the maximal path length of the first moves); order values dyadic (lattice) or whatever TurtleMD produces (run as is)",
         "scope (six decimals): TurtleMD order values are not representable at the six decimals of order.txt; after a restart "
@@ -741,6 +816,7 @@ def replay(ctx, obj):
     else:
         fam = {k: r[k] for k in ("engine", "moves", "mtag", "seed", "N", "nintf", "delete_old")}
         fam["cap"] = r.get("cap")
+        fam["opts"] = r.get("opts")
         base = tempfile.mkdtemp(prefix="vp-c06-replay-", dir=SCRATCH)
         pool = legs.LegPool(2)
         try:
@@ -757,7 +833,7 @@ def replay(ctx, obj):
                 else:
                     run_w1_families(ctx, pool, base, [fam], all_splits=[], chains=[chain], every=False, fresh_one=False)
             elif r.get("kind") == "multi-fifo-split":
-                run_multi_fifo(ctx, pool, base, [(fam, r["workers"], list(r["chain"]))])
+                run_multi_fifo(ctx, pool, base, [(fam, r["workers"], [tuple(r["chain"])], r.get("policy", "fifo"))])
             else:
                 run_multi(ctx, pool, base, [(fam, r["workers"], r["policy"], tuple(r["chain"]))])
         finally:
